@@ -1468,6 +1468,14 @@ func (ro *RedisOutput) bisyncStartPoint(ctx context.Context, runIDs []string) (S
 			// Recovery may consume the first post-snapshot journal records to rebuild
 			// the durable frontier. Once that frontier is selected, those journal
 			// keys are stale and should not survive as residual metadata.
+			// The rebuilt frontier has to be durable before they go: it exists nowhere
+			// else, and without it the next start would resume behind this point (or
+			// find a journal that no longer begins right after the stored frontier).
+			if snapshot == nil || frontier.UnitSeq > snapshot.UnitSeq {
+				if err := checkpoint.SaveBisyncFrontierSnapshot(cli, snapshotKey, frontier); err != nil {
+					return sp, 0, false, err
+				}
+			}
 			ro.cleanupRecoveredBisyncCommitRecords(cli, checkpointName, frontier, records)
 			ro.logger.Infof("bisync startpoint parallel selected: checkpoint(%s), start(%+v), seq(%d)", checkpointName, sp, frontier.UnitSeq)
 			return sp, frontier.UnitSeq, true, nil
